@@ -150,15 +150,22 @@ MatchesW(c, b) == ContentBadW(c, b) = {}
 (*   Ambiguous  another block of the same name says something else         *)
 (*   Invented   a block that describes no source material                  *)
 (***************************************************************************)
+\* for the DETAIL of a rejection only: the name with its blanks removed, and of several candidates the
+\* one that is off in the fewest parts
+Squeeze(nm) == SelectSeq(nm, LAMBDA ch : ~Blank(ch))
+Fewest(S, Bad(_)) ==
+    IF S = {} THEN {} ELSE Bad(CHOOSE i \in S : \A j \in S : Cardinality(Bad(i)) <= Cardinality(Bad(j)))
+
 Cands(c, den) == {i \in DOMAIN den.mats : MatchesW(c, den.mats[i])}
 SameName(den, i) == {j \in DOMAIN den.mats : den.mats[j].nm = den.mats[i].nm}
 Named(c, den) == {i \in DOMAIN den.mats : den.mats[i].nm = c.nm}
+Alike(c, den) == {i \in DOMAIN den.mats : den.mats[i].nm = Squeeze(c.nm)}
 
 RangeBadW(c, den) ==
     LET cs == Cands(c, den)
         ks == IF ~c.nil /\ Token(c.nm) THEN cs \cap Named(c, den) ELSE cs IN
     IF cs = {} THEN
-        IF ~c.nil /\ Named(c, den) # {} THEN UNION {ContentBadW(c, den.mats[i]) : i \in Named(c, den)}
+        IF ~c.nil /\ Alike(c, den) # {} THEN Fewest(Alike(c, den), LAMBDA i : ContentBadW(c, den.mats[i]))
         ELSE {"Covers"}
     ELSE IF ks = {} THEN {"NameKept"}
     ELSE IF \E i \in ks : SameName(den, i) \subseteq cs THEN {} ELSE {"Ambiguous"}
@@ -220,8 +227,8 @@ MatchesRt(c, o) == ContentBadRt(c, o) = {}
 \* srcs: flattened source ranges; rd: materials read back from the written library
 RoundTripBad(srcs, rd) ==
     UNION {IF srcs[r].nil \/ \E i \in DOMAIN rd : MatchesRt(srcs[r], rd[i]) THEN {}
-           ELSE LET named == {i \in DOMAIN rd : rd[i].nm = srcs[r].nm} IN
-                IF named = {} THEN {"Covers"} ELSE UNION {ContentBadRt(srcs[r], rd[i]) : i \in named}
+           ELSE LET alike == {i \in DOMAIN rd : rd[i].nm = Squeeze(srcs[r].nm)} IN
+                IF alike = {} THEN {"Covers"} ELSE Fewest(alike, LAMBDA i : ContentBadRt(srcs[r], rd[i]))
            : r \in DOMAIN srcs}
     \cup (IF \A i \in DOMAIN rd : \E r \in DOMAIN srcs : MatchesRt(srcs[r], rd[i]) THEN {} ELSE {"Invented"})
 
@@ -241,7 +248,7 @@ ResolveBad(cs, tris, lib) ==
                 ELSE IF Defs(lib, tris[t].m) = {} THEN {"Undefined"}
                 ELSE IF \A i \in Defs(lib, tris[t].m) : MatchesW(cs[t].c, lib[i]) THEN {}
                 ELSE IF \E i \in Defs(lib, tris[t].m) : MatchesW(cs[t].c, lib[i]) THEN {"Ambiguous"}
-                ELSE UNION {ContentBadW(cs[t].c, lib[i]) : i \in Defs(lib, tris[t].m)}
+                ELSE Fewest(Defs(lib, tris[t].m), LAMBDA i : ContentBadW(cs[t].c, lib[i]))
                 : t \in DOMAIN cs}
 
 \* os: per triangle of a loaded mesh [none, o]
@@ -258,7 +265,7 @@ PickedBad(tri, o, lib, one) ==
     ELSE IF o.nil THEN {"Missing"}
     ELSE IF \E i \in Defs(lib, tri.m) : o.nm = lib[i].nm /\ ContentBadR(lib[i], o, one) = {} THEN {}
     ELSE LET same == {i \in Defs(lib, tri.m) : o.nm = lib[i].nm} IN
-         IF same = {} THEN {"Name"} ELSE UNION {ContentBadR(lib[i], o, one) : i \in same}
+         IF same = {} THEN {"Name"} ELSE Fewest(same, LAMBDA i : ContentBadR(lib[i], o, one))
 
 \* per triangle entries of a mesh whose ranges are [n, mat]
 ExpandRanges(ranges) == FoldLeft(LAMBDA acc, r : acc \o [i \in 1..r.n |-> r.mat], <<>>, ranges)
